@@ -838,3 +838,71 @@ def explore_parallel(make_harness, harg, workers, bound=None, max_exec=None,
         st.bound_completed = bound
     table.close()
     return viol, st, sums
+
+
+# ------------------------------------------------- module-level state reset
+
+class ModuleState(object):
+    """Snapshot of the module-level and class-level state of library modules
+    (rebindable globals and mutable containers).  restore() puts it back, so
+    that every execution starts from the same hidden state: a cache or scratch
+    buffer at module/class scope would otherwise carry information from one
+    explored schedule into the next."""
+
+    SIMPLE = (int, float, str, bytes, bool, type(None), tuple, frozenset)
+    CONT = (dict, list, set, bytearray)
+
+    def __init__(self, modules):
+        self.items = []
+        for m in modules:
+            self._snap(vars(m), m)
+            for v in list(vars(m).values()):
+                if isinstance(v, type) and getattr(v, "__module__", None) == \
+                        m.__name__:
+                    self._snap(dict(vars(v)), v, is_class=True)
+
+    def _snap(self, d, owner, is_class=False):
+        import copy
+        names = {}
+        for k, v in d.items():
+            if k.startswith("__") and k.endswith("__"):
+                continue
+            if isinstance(v, self.CONT):
+                try:
+                    names[k] = ("cont", v, copy.deepcopy(v))
+                except Exception:
+                    names[k] = ("ref", v, None)
+            else:
+                names[k] = ("ref", v, None)
+        self.items.append((owner, is_class, names))
+
+    def restore(self):
+        import copy
+        for owner, is_class, names in self.items:
+            cur = dict(vars(owner))
+            for k in list(cur):
+                if k.startswith("__") and k.endswith("__"):
+                    continue
+                if k not in names:
+                    try:
+                        delattr(owner, k)
+                    except Exception:
+                        pass
+            for k, (kind, obj, saved) in names.items():
+                if cur.get(k, None) is not obj:
+                    try:
+                        setattr(owner, k, obj)
+                    except Exception:
+                        pass
+                if kind == "cont":
+                    fresh = copy.deepcopy(saved)
+                    if isinstance(obj, dict):
+                        obj.clear()
+                        obj.update(fresh)
+                    elif isinstance(obj, list):
+                        obj[:] = fresh
+                    elif isinstance(obj, set):
+                        obj.clear()
+                        obj.update(fresh)
+                    elif isinstance(obj, bytearray):
+                        obj[:] = fresh
